@@ -6,7 +6,7 @@
 // spawned actor; replies are compared with the handle-counting model of C14 (usable iff handles > 0, close reports closedness, sync gate,
 // sticky enable across opens, failed requests change nothing) and shutdown must hand back a store holding every acknowledged write.
 // Second part: after every sequence of up to 4 state-changing requests over {open, open with sync, close, set_sync(true), set_sync(false)} (781
-// sequences) each gated request kind {insert_local, delete_prefix, get_exact, get_sync_peers, export_secret_key, subscribe, get_state: usable iff
+// sequences) each gated request kind {insert_local, delete_prefix, get_exact, get_many, get_sync_peers, export_secret_key, subscribe, get_state: usable iff
 // handles > 0; insert_remote, sync_initial_message, sync_process_message: iff handles > 0 and sync enabled} is probed once against the model.
 #[cfg(test)]
 mod verif_rp_c14_actor {
@@ -154,6 +154,16 @@ mod verif_rp_c14_actor {
         let (tx, _rx) = async_channel::bounded(8);
         let r = handle.subscribe(id, tx).await;
         assert_eq!(r.is_ok(), open, "WITNESS subscribe usable={} but document open={open} {ctx}", r.is_ok());
+        {
+            // get_many answers through a stream: the first item is an error iff the document is not open
+            let (tx, mut rx) = mpsc::channel(64);
+            handle.get_many(id, crate::store::Query::all().into(), tx).await.unwrap();
+            let mut items = vec![];
+            while let Ok(Some(item)) = rx.recv().await { items.push(item.is_ok()); }
+            let usable = items.iter().all(|ok| *ok);
+            assert_eq!(usable, open, "WITNESS get_many streams {items:?} (true = entry, false = error) but document open={open} {ctx}");
+            if !open { assert_eq!(items, vec![false], "WITNESS get_many on a document that is not open must answer with one error item, got {items:?} {ctx}"); }
+        }
         let r = handle.get_state(id).await;
         assert_eq!(r.is_ok(), open, "WITNESS get_state usable={} but document open={open} {ctx}", r.is_ok());
         if let Ok(st) = r { assert_eq!((st.handles, st.sync), (h, s), "WITNESS get_state {ctx}"); }
